@@ -131,6 +131,17 @@ def site_setup(sym, kind, nsites):
         for nm in names:
             qs[nm + "u"] = mode_charge(sym, "u")
             qs[nm + "d"] = mode_charge(sym, "d")
+    elif kind in ("three-mode", "three-mode-b"):
+        # one site carrying three modes, its eight occupation states listed in a scrambled order (so that the positions of
+        # one charge on the dense axis are unevenly spaced); charge of a state = number (U1) / parity (Z2) of occupied modes
+        a, b, c = ("a", True), ("b", True), ("c", True)
+        if kind == "three-mode":
+            order = [(a, b), (), (a,), (a, b, c), (b,), (a, c), (b, c), (c,)]
+        else:
+            order = [(a,), (), (b,), (a, b), (c,), (a, c), (b, c), (a, b, c)]
+        bases = [[tuple(stt) for stt in order]]
+        maps = [[(len(stt) % 2) if sym == "Z2" else len(stt) for stt in order]]
+        qs = {"a": 1, "b": 1, "c": 1}
     else:  # spinful without double occupancy (incomplete basis)
         bases = [[(), ((nm + "d", True),), ((nm + "u", True),)] for nm in names]
         maps = [list(get_spinful_charge_indexmap(sym))[:3] for _ in names]
@@ -401,6 +412,9 @@ def groups(ctx):
                 continue
             for nsites in (1, 2):
                 out.append(("arrays", sym, kind, nsites))
+    for sym in ("Z2", "U1"):
+        for kind in ("three-mode", "three-mode-b"):
+            out.append(("arrays", sym, kind, 1))
     return out
 
 
